@@ -223,7 +223,9 @@ def run_resilient(ctx, cases, tag, timeout=900):
                 res[gi] = r1[0]
                 res[gi]["_alone_ok_after_shard_death"] = True
             else:
-                deaths.append((gi, rc_name(rc1), log1[-300:]))
+                # the FIRST panic names the defect (later ones are consequences of evaluating on after it): keep it with the tail
+                fp = re.search(r"PANIC at (\S+)", log1)
+                deaths.append((gi, rc_name(rc1), ("PANIC at %s\n...\n" % fp.group(1) if fp else "") + log1[-300:]))
             nxt += [pending[j] for j in idxs if j > first_none]
         pending = sorted(nxt)
     for i in pending:
@@ -734,9 +736,9 @@ def run_histories(ctx, n_hist, tag):
     for gi, why, log in deaths:
         m = re.findall(r"PANIC at (\S+)", log)
         if m:
-            why = "%s:after-panic:%s" % (why, m[-1])
+            why = "%s:after-panic:%s" % (why, m[0])
         failures.append({"key": "%s:history" % why, "what": "the process died (%s) during a history of %d evaluations: %s" % (why, len(cases[gi]["files"]), log[-200:]),
-                         "replay": {"kind": "history", "files": cases[gi]["files"]}})
+                         "replay": {"kind": "case", "case": {k: v for k, v in cases[gi].items() if k != "probe"}}})
     for gi, why, log in adeaths:
         h, s = alone_ix[gi]
         failures.append({"key": "%s:program" % why, "what": "the process died (%s) evaluating one program: %s" % (why, log[-200:]),
@@ -918,7 +920,7 @@ def run_corpus(ctx):
     dead = {}
     for i, why, log in deaths:
         m = re.findall(r"PANIC at (\S+)", log)
-        dead[i] = "%s:after-panic:%s" % (why, m[-1]) if m else why
+        dead[i] = "%s:after-panic:%s" % (why, m[0]) if m else why
     for i, (e, c) in enumerate(zip(entries, cases)):
         if i in dead:
             failures.append({"key": e.get("key_on_death") or "%s:corpus:%s" % (dead[i], e["name"]), "what": "corpus case %s: the process died (%s)" % (e["name"], dead[i]),
